@@ -520,9 +520,9 @@ func famForDeep() Family {
 // ---- family calls ----------------------------------------------------------------------------------
 
 func famCalls(thorough bool) Family {
-	return Family{Name: "calls", Bound: "8 function names (upper, min, add/greet/list from ext/userfunc, try, can, an undefined one) x all argument lists of <= 3 out of 14 expressions, with and without final-argument expansion; every two-level nesting of 7 outer x 80 inner calls; try/can inside for, splat, conditional and template scopes",
+	return Family{Name: "calls", Bound: "11 function names (upper, min, add/greet/list/first/rest/vn from ext/userfunc - four of them variadic, with parameter names that collide with each other's and with a variable of the calling scope -, try, can, an undefined one) x all argument lists of <= 3 out of 14 expressions, with and without final-argument expansion; every two-level nesting of 7 outer x 80 inner calls; try/can inside for, splat, conditional and template scopes",
 		Gen: func(yield func(*Node)) {
-			names := []string{"upper", "min", "add", "greet", "list", "try", "can", "nope"}
+			names := []string{"upper", "min", "add", "greet", "list", "try", "can", "nope", "first", "rest", "vn"}
 			pool := []*Node{
 				Num("1"), Num("2"), Str("a"), Str("7"), Bool(true), Null(), Var("n"), Var("s"), Var("u"),
 				Var("l"), Var("t"), Attr(Var("o"), "zz"), Tuple(Num("1"), Num("2")), Num("3.5"),
